@@ -485,22 +485,23 @@ def _is_leaf(e):
     return e[0] == "lit" or (e[0] in ("neg", "cast") and e[-1][0] == "lit")
 
 
-def mul_right_literals(e, inside=False, acc=None, compound_only=False):
+def mul_right_literals(e, inside=False, acc=None, compound_only=False, wide=()):
     """indices of literals occurring inside the right operand of a multiplication
-    (compound_only: only of multiplications that have an operand which is not a literal, -literal or (T)literal)"""
+    (compound_only: only of multiplications that have an operand which is not a literal, -literal or (T)literal,
+    or whose right operand contains a literal with a suffix listed in `wide`)"""
     if acc is None:
         acc = set()
     if e[0] == "lit":
         if inside:
             acc.add(e[1])
     elif e[0] == "mul":
-        mul_right_literals(e[1], inside, acc, compound_only)
-        both_plain = _is_leaf(e[1]) and _is_leaf(e[2])
-        mul_right_literals(e[2], inside or not (compound_only and both_plain), acc, compound_only)
+        mul_right_literals(e[1], inside, acc, compound_only, wide)
+        both_plain = _is_leaf(e[1]) and _is_leaf(e[2]) and not any(sfx in wide for _, sfx in literals(e[2]))
+        mul_right_literals(e[2], inside or not (compound_only and both_plain), acc, compound_only, wide)
     else:
         for x in e[1:]:
             if isinstance(x, (list, tuple)):
-                mul_right_literals(x, inside, acc, compound_only)
+                mul_right_literals(x, inside, acc, compound_only, wide)
     return acc
 
 
